@@ -108,6 +108,8 @@ def ev_class(pre, ev):
         return t + (":force" if ev[3] else "")
     if k == "add_node":
         return f"{ev[5]}:force" if ev[4] else str(ev[5])
+    if k == "del_node":
+        return str(ev[2]) if len(ev) > 2 else ""
     if k == "paint":
         v = ev[3]
         return ("erase" if v == 0 else ("existing" if v in pre["times"] else "new")) + (":force" if ev[5] else "")
